@@ -23,6 +23,8 @@ def c01_relevant(kind, rec, case):
     # every solution handed out by any entry point
     if kind in ("fix", "asg"):
         return True  # exact propagation / domain-store correspondence
+    if kind in ("bad", "panic", "same") and "bigsearch" in rec + " " + case.desc:
+        return True  # long searches on larger models: totality and reference evaluation of every solution
     return kind in ("sol", "asol", "partial") or (kind in ("subset", "solset") and False)
 
 
@@ -79,6 +81,8 @@ def c01_relevant(kind, rec, case):
         return True  # a partial assignment was handed out as a solution
     if kind in ("fix", "asg"):
         return True  # exact propagation / domain-store correspondence
+    if kind in ("bad", "panic", "same") and "bigsearch" in rec + " " + case.desc:
+        return True  # long searches on larger models: totality and reference evaluation of every solution
     return kind in ("sol", "asol", "partial")
 
 
@@ -129,6 +133,7 @@ PROPS = {
             {"name": "answers", "mode": "answers", "quick": 400, "thorough": 12000, "args": ["--mix", ALL_SCEN]},
             {"name": "fix", "mode": "fix", "quick": 1200, "thorough": 30000, "args": []},
             {"name": "store", "mode": "asg", "quick": 500, "thorough": 12000, "args": []},
+            {"name": "bigsearch", "mode": "bigsearch", "quick": 1500, "thorough": 20000, "args": []},
         ],
         "relevant": c01_relevant,
         "lean_modules": ["Pumpkin.Model.Propagation", "Pumpkin.Model.PropagationChecks", "Pumpkin.Model.AssignmentsEvents"],
@@ -231,6 +236,7 @@ PROPS = {
     "C18": {
         "streams": [
             {"name": "branchers", "mode": "branchers", "quick": 700, "thorough": 14000, "args": ["--allow-subset-random", "1"]},
+            {"name": "bigsearch", "mode": "bigsearch", "quick": 3000, "thorough": 30000, "args": []},
         ],
         "relevant": c18_relevant,
         "level_text": "Correspondence: a checking wrapper (possible only through the Assignments re-export hook) around every built-in brancher during real solves: all 10x14 variable x value selector pairs are cycled deterministically, plus DynamicBrancher, AlternatingBrancher (4 strategies), AutonomousSearch, the default brancher; each proposed decision must be over one of the brancher's variables and currently unassigned, and `None` only when all its variables are fixed; reported solutions must be total. Lean: value-selector models with undecidedness theorems (Model/Branching.lean).",
